@@ -60,8 +60,19 @@ class GPolygon:
     def exterior(self):
         return type("Ext", (), {"coords": Coords(self)})()
 
+    RESULT_KIND = "single"      # what the library answers for the next set operation: single / pieces / empty
+
     def _op(self, name, other):
-        return GPolygon(src=(self, other), how=name)
+        if GPolygon.RESULT_KIND == "pieces":
+            # the true result has several disconnected pieces: shapely answers with a MultiPolygon / GeometryCollection
+            parts = [GPolygon(src=(self, other), how=name + ":piece") for _ in range(2)]
+            for i_, g_ in enumerate(parts):
+                g_.area = 2.0 - i_
+            return type("MultiGeom", (), {"geoms": parts, "is_empty": False, "is_valid": True, "area": 3.0, "geom_type": "MultiPolygon"})()
+        g = GPolygon(src=(self, other), how=name)
+        if GPolygon.RESULT_KIND == "empty":
+            g.is_empty = True
+        return g
 
     def union(self, o): return self._op("union", o)
     def intersection(self, o): return self._op("intersection", o)
@@ -268,6 +279,20 @@ def run_polygon(mutate=None):
                     check(f"C18.no_alias.result_is_a_new_object[{tag}]", z3.BoolVal(q is not p and q._points is not before))
                     check(f"C18.no_alias.receiver_unchanged[{tag}]", z3.BoolVal(p._points is before and p.name == "orig" and p.mesh is False))
                     check(f"C18.no_alias.name_and_mesh_flag_copied[{tag}]", z3.BoolVal(q.name == "orig" and q.mesh is False))
+        # a set operation whose true result is not one polygon (several pieces, or nothing) is refused, never answered with a part of it
+        for kind in ("pieces", "empty"):
+            for sym_, meth in (("+", "__add__"), ("-", "__sub__"), ("*", "__mul__"), ("union", "union"), ("difference", "difference"), ("intersection", "intersection")):
+                a_, b_ = Polygon("a", points="A"), Polygon("b", points="B")
+                GPolygon.RESULT_KIND = kind
+                try:
+                    r_ = getattr(a_, meth)(b_)
+                    refused = False
+                except ValueError:
+                    refused = True
+                finally:
+                    GPolygon.RESULT_KIND = "single"
+                sym.check_terms(f"C18.set_operation.result_that_is_not_one_polygon_is_refused[{kind}; {sym_}]", refused,
+                                note="" if refused else f"returned {type(r_).__name__} built from {getattr(origin(getattr(r_, '_points', None)), 'how', None)}")
         # derived views answer for the CURRENT outline: a membership query after an in-place change consults a path built from the
         # vertices stored now, also when the same polygon was queried before the change
         for op in ("translate", "rotate", "scale", "points="):
@@ -419,6 +444,25 @@ def native(seed=0, trials=60):
                 near |= poly.contains_points(pts, radius=1e-6) != poly.contains_points(pts, radius=-1e-6)
             if np.any((got != want) & ~near):
                 bad.append(dict(what=f"{nm} disagrees with point-wise membership", trial=t, n_wrong=int(np.sum((got != want) & ~near))))
+        if t < 3:
+            # operations whose true result has several pieces: refused (ValueError) or, if answered, point-wise right
+            bar = tdgl.Polygon("bar", points=box(4, 1))
+            slit = tdgl.Polygon("slit", points=box(0.5, 2))
+            far = tdgl.Polygon("far", points=box(1, 1, center=(5, 0)))
+            gpts = rng.uniform(-3, 6, size=(2000, 2))
+            for nm, op, want in (("difference in two pieces", lambda: bar - slit, bar.contains_points(gpts) & ~slit.contains_points(gpts)),
+                                 ("union of disjoint shapes", lambda: bar + far, bar.contains_points(gpts) | far.contains_points(gpts))):
+                n += 1
+                try:
+                    r = op()
+                except ValueError:
+                    continue
+                near = np.zeros(len(gpts), dtype=bool)
+                for poly in (bar, slit, far):
+                    near |= poly.contains_points(gpts, radius=1e-6) != poly.contains_points(gpts, radius=-1e-6)
+                if np.any((r.contains_points(gpts) != want) & ~near):
+                    bad.append(dict(what=f"{nm}: the returned polygon disagrees with point-wise membership (a piece of the result was dropped)",
+                                    n_points_wrong=int(np.sum((r.contains_points(gpts) != want) & ~near)), area_returned=float(r.area)))
         # a polygon that was queried BEFORE it is transformed in place must answer for its new outline afterwards
         for nm, do in (("translate", lambda q: q.translate(dx, dy, inplace=True)), ("rotate", lambda q: q.rotate(th, inplace=True)), ("scale", lambda q: q.scale(fx, fy, inplace=True))):
             q = a.copy()
